@@ -36,6 +36,9 @@ SCAL: Dict[str, List[str]] = {
     "Backreference": ["unmappable"], "BackreferenceMapping": ["values"], "AlternativeMappingAggregator": [],
     "ItemWithBackreference": ["value"], "ContainerGeneration": [], "Vector": ["x"], "VectorsWithProperty": [],
     "CustomEntity": ["overwritten_name"], "VectorMapped": ["x"],
+    "PositionTypeWrapper": ["position_type"],                 # custom column type krrood.ormatic.custom_types.TypeType
+    "CallableWrapper": [],                                    # func: FunctionType, alternatively mapped by
+    "function": ["__module__", "__name__", "__class_name__"],  # krrood.ormatic.alternative_mappings.FunctionMapping
 }
 REFS: Dict[str, List[Tuple[str, str, str, bool]]] = {
     "Pose": [("position", "one", "Position", False), ("orientation", "one", "Orientation", False)],
@@ -53,17 +56,34 @@ REFS: Dict[str, List[Tuple[str, str, str, bool]]] = {
     "ItemWithBackreference": [("container", "one", "ContainerGeneration", True)],
     "ContainerGeneration": [("items", "many", "ItemWithBackreference", False)],
     "VectorsWithProperty": [("_vectors", "many", "Vector", False)],
+    "CallableWrapper": [("func", "one", "function", False)],
 }
 SUB = {"Position": ["Position", "Position4D", "Position5D"], "KinematicChain": ["KinematicChain", "Torso"],
        "Entity": ["Entity", "DerivedEntity"]}
 ALT = {"Entity": "CustomEntity", "Backreference": "BackreferenceMapping", "Vector": "VectorMapped",
-       "VectorsWithProperty": "VectorsWithPropertyMapped"}
+       "VectorsWithProperty": "VectorsWithPropertyMapped", "function": "FunctionMapping"}
+FUNCTIONS = ["module_level_function", "CallableWrapper.custom_static_method"]
 ALTBASE = {"DerivedEntity"}  # DAO below an alternatively mapped DAO (to_dao_if_subclass_of_alternative_mapping): not modelled
 CLASS_ID = {n: i + 1 for i, n in enumerate(sorted(set(SCAL) | set(ALT.values())))}
 ROOT_KINDS = (["Torso"] * 8 + ["Node"] * 4 + ["ContainerGeneration", "ItemWithBackreference"] * 2 +
               ["AlternativeMappingAggregator", "DoublePositionAggregator", "PositionsSubclassWithAnotherPosition"] * 2 +
               ["Reference", "Backreference"] * 2 +
-              ["Pose", "Positions", "ObjectAnnotation", "EntityAssociation", "VectorsWithProperty", "Atom", "Position5D", "KinematicChain"])
+              ["Pose", "Positions", "ObjectAnnotation", "EntityAssociation", "VectorsWithProperty", "Atom", "Position5D", "KinematicChain",
+               "PositionTypeWrapper", "CallableWrapper"])
+
+
+MODEL_MODULE = "test.dataset.example_classes"   # where the domain classes live (harness/c05.py also uses generated models)
+SCAL_TYPES: Dict[str, Dict[str, str]] = {}      # generated models: class -> field -> scalar type name
+
+
+def model_module():
+    import importlib
+    return importlib.import_module(MODEL_MODULE)
+
+
+def class_of(cn: str):
+    from types import FunctionType
+    return FunctionType if cn == "function" else getattr(model_module(), cn)
 
 
 def subs(t: str) -> List[str]:
@@ -113,9 +133,22 @@ def scalar_key(v) -> Any:
     return ("inst", type(v).__name__)
 
 
+def get_scalar(o, f):
+    """value of the mapped column field f of o; functions are described as FunctionMapping describes them"""
+    if type(o).__name__ == "function":
+        if f == "__class_name__":
+            return o.__qualname__.split(".")[0] if "." in o.__qualname__ else None
+        return getattr(o, f)
+    return getattr(o, f)
+
+
+def has_scalar(o, f) -> bool:
+    return True if type(o).__name__ == "function" else hasattr(o, f)
+
+
 # ----------------------------------------------------------------------------- descr (JSON) <-> python objects
 def _dec(v):
-    from test.dataset import example_classes as ex
+    ex = model_module()
     if isinstance(v, dict):
         if "enum" in v:
             return ex.Element[v["enum"]]
@@ -125,15 +158,23 @@ def _dec(v):
             return getattr(ex, v["inst"])()
         if "dictvals" in v:
             return {x: x for x in v["dictvals"]}
+        if "type" in v:
+            return getattr(ex, v["type"])
     return v
 
 
 def build(descr) -> List[Any]:
     """Construct the object graph of a case through the classes' own constructors, then wire the references."""
-    from test.dataset import example_classes as ex
+    ex = model_module()
     objs = []
     for o in descr["objs"]:
-        cls = getattr(ex, o["c"])
+        if o["c"] == "function":
+            fn = ex
+            for part in o["s"]["fn"].split("."):
+                fn = getattr(fn, part)
+            objs.append(fn)
+            continue
+        cls = class_of(o["c"])
         kw = {k: _dec(v) for k, v in o["s"].items()}
         for f, kind, _t, _opt in REFS.get(o["c"], []):
             kw[f] = None if kind == "one" else []
@@ -185,11 +226,11 @@ def dump(root, reverse=False) -> Tuple[List[Tuple[int, int, List[int], List[Tupl
             anomalies.append(f"object of unexpected class {cn}")
         scal = []
         for f in SCAL.get(cn, []):
-            if not hasattr(o, f):
+            if not has_scalar(o, f):
                 scal.append(SCALARS(("missing", f)))
                 anomalies.append(f"{cn}.{f} missing")
             else:
-                scal.append(SCALARS(scalar_key(getattr(o, f))))
+                scal.append(SCALARS(scalar_key(get_scalar(o, f))))
         flds = []
         for f, kind, _t, _opt in REFS.get(cn, []):
             v = getattr(o, f, None)
@@ -239,8 +280,8 @@ def py_iso(a, b) -> Optional[str]:
         m_ba[id(y)] = x
         cn = type(x).__name__
         for f in SCAL.get(cn, []):
-            if scalar_key(getattr(x, f)) != scalar_key(getattr(y, f, ("missing",))):
-                return f"{path}.{f}: value {getattr(x, f)!r:.40} vs {getattr(y, f, '<missing>')!r:.40}"
+            if not has_scalar(y, f) or scalar_key(get_scalar(x, f)) != scalar_key(get_scalar(y, f)):
+                return f"{path}.{f}: value {get_scalar(x, f)!r:.40} vs {getattr(y, f, '<missing>')!r:.40}"
         for f, kind, _t, _opt in REFS.get(cn, []):
             u, v = getattr(x, f), getattr(y, f, None)
             if kind == "one":
@@ -260,6 +301,11 @@ def py_iso(a, b) -> Optional[str]:
 # ----------------------------------------------------------------------------- generator (abstract graphs)
 def gen_scalars(rng: core.Rng, cls: str, idx: int) -> Dict[str, Any]:
     num = lambda: rng.choice([0, 1, 2, 3, 0.5, -1.5, 4.0])
+    if cls in SCAL_TYPES:
+        mk = {"int": lambda: rng.randint(-2, 5), "float": num, "str": lambda: f"s{rng.randint(0, 4)}",
+              "bool": lambda: rng.chance(0.5), "Optional[float]": lambda: rng.choice([None, 0.5, 2.0]),
+              "Optional[int]": lambda: rng.choice([None, 0, 7]), "List[str]": lambda: [f"t{rng.randint(0, 2)}" for _ in range(rng.randint(0, 2))]}
+        return {f: mk[t]() for f, t in SCAL_TYPES[cls].items()}
     if cls in ("Position", "Position4D", "Position5D"):
         return {f: num() for f in SCAL[cls]}
     if cls == "Orientation":
@@ -285,6 +331,10 @@ def gen_scalars(rng: core.Rng, cls: str, idx: int) -> Dict[str, Any]:
         return {"unmappable": {"dictvals": sorted({rng.randint(0, 4) for _ in range(rng.randint(0, 2))})}}
     if cls == "Vector":
         return {"x": num()}
+    if cls == "PositionTypeWrapper":
+        return {"position_type": {"type": rng.choice(["Position", "Position4D", "Position5D"])}}
+    if cls == "function":
+        return {"fn": rng.choice(FUNCTIONS)}
     return {}
 
 
@@ -407,14 +457,13 @@ def setup_impl():
     import sqlalchemy
     from sqlalchemy.orm import configure_mappers
     from krrood.ormatic.dao import get_dao_class
-    from test.dataset import example_classes as ex
     interface()  # the generated DAO layer
     configure_mappers()
     # the field order the model walks must be the order of the DAO mapper's relationships
     for cn, refs in REFS.items():
         if cn == "BackreferenceMapping":
             continue
-        dao = get_dao_class(getattr(ex, cn))
+        dao = get_dao_class(class_of(cn))
         keys = [r.key for r in sqlalchemy.inspect(dao).relationships]
         mine = [f.lstrip("_") for f, *_ in refs]
         if [k for k in keys if k in mine] != mine:
